@@ -25,7 +25,7 @@ func init() {
 				n = 1600
 			}
 			return fw.Meta{N: n, Level: "fault_enumeration", Chunk: 2, CaseTimeoutS: 600, MinNT: 30,
-				Rule:        "one case = one generated table (2..9 keys, values 1..60 bytes, some tables additionally carry empty and nil values; data compression none/gzip/snappy/lzw; index loader default/disk/skiplist/slice by case); damaged copies of its data file: every byte offset x {8 single-bit flips, 0x00, 0xFF, 0x91, 0x8d, 0x4c} (tables <= 2 KiB, seeded offsets + all header bytes beyond), every truncation length, every swap of two records. Each copy is read (a) with default options: open must fail or every Get/ScanRange/Scan step returns the written value; (b) with SkipHashCheckOnLoad+EnableHashCheckOnReads (both orders of the two options, before and after the other options): each Get/scan step errors or returns the written value. Every key is fetched twice in a row and once more after the scans on the same reader. A panic counts as a violation. Empty/nil values are only required to stay empty/nil under byte alterations of uncompressed (header-protected) tables. evaluations = damaged copies x 2 modes; non-trivial = table with >=2 non-empty values; distinct by table content hash",
+				Rule:        "one case = one generated table (2..9 keys, one table in four incl. the empty key, values 1..60 bytes, some tables additionally carry empty and nil values; data compression none/gzip/snappy/lzw; index loader default/disk/skiplist/slice by case); damaged copies of its data file: every byte offset x {8 single-bit flips, 0x00, 0xFF, 0x91, 0x8d, 0x4c} (tables <= 2 KiB, seeded offsets + all header bytes beyond), every truncation length, every swap of two records. Each copy is read (a) with default options: open must fail or every Get/ScanRange/Scan step returns the written value; (b) with SkipHashCheckOnLoad+EnableHashCheckOnReads (both orders of the two options, before and after the other options): each Get/scan step errors or returns the written value. Every key is fetched twice in a row and once more after the scans on the same reader. A panic counts as a violation. Empty/nil values are only required to stay empty/nil under byte alterations of uncompressed (header-protected) tables. evaluations = damaged copies x 2 modes; non-trivial = table with >=2 non-empty values; distinct by table content hash",
 				MinObs:      map[string]int64{"damaged_copies": 20000, "rejected_at_open": 5000, "rejected_at_read": 2000, "served_original_value": 2000, "truncations": 2000, "record_swaps": 50, "tables_with_empty_or_nil_value": 5},
 				Assumptions: []string{"a CRC32/CRC64 collision would be reported as a violation (probability negligible for the enumerated single-byte damage)"},
 			}
@@ -39,6 +39,12 @@ func runC09(c *fw.Case) {
 	dataComp := c.Idx % 4
 	n := 2 + r.Intn(8)
 	keys := gen.AscendingKeys(r, n, gen.Pick(r, 0, 1, 3))
+	if r.Intn(4) == 0 && len(keys[0]) > 0 {
+		keys[0] = []byte{} // the empty key is a legal key (every index loader hands it back as nil)
+	}
+	if len(keys[0]) == 0 {
+		c.Obs("tables_with_the_empty_key", 1)
+	}
 	withEmpties := r.Intn(3) == 0
 	var kvs []kv
 	nonEmpty := 0
